@@ -341,12 +341,14 @@ def _merge(S_):
         S.canary(q, [off >= 0])
 
 
-def _combine_mesh(S):
+def _combine_mesh(S, absent=()):
+    """absent: subset of {('1','nodeSets'), ('2','sideSets'), ...}: that mesh carries None for that set dictionary"""
+    sfx = '' if not absent else '[absent: %s]' % ','.join('mesh%s.%s' % a for a in sorted(absent))
     from vt import parr as A
     ns, vc, info = P.load_module(FILE)
     ns['np'] = A.NpShim(onp, jaxlike=True)
     ns['len'] = lambda x: x.shape[0] if isinstance(x, A.PArr) else len(x)
-    q = 'Mesh.combine_mesh'
+    q = 'Mesh.combine_mesh' + sfx
     MeshT = ns['Mesh']
 
     class PE:
@@ -360,14 +362,15 @@ def _combine_mesh(S):
         conns = A.PArr((E, 3), lambda e, j: tm.app('conn_' + tag, (A.I(e), A.I(j)), INT), INT, label='conns' + tag)
         disp = A.PArr((N, 2), lambda n, c: tm.app('U_' + tag, (A.I(n), A.I(c)), REAL), REAL, label='disp' + tag)
         blocks = _sets('blk' + tag, ('a',), 0, E)
-        m = MeshT(coords, conns, None, PE(), PE(), blocks, _sets('ns' + tag, ('a',), 0, N), _sets('ss' + tag, ('a',), 2, E))
+        m = MeshT(coords, conns, None, PE(), PE(), blocks, None if (tag, 'nodeSets') in absent else _sets('ns' + tag, ('a',), 0, N),
+                  None if (tag, 'sideSets') in absent else _sets('ss' + tag, ('a',), 2, E))
         return m, disp
     (m1, d1), (m2, d2) = mk('1'), mk('2')
     (N1, E1), (N2, E2) = sz['1'], sz['2']
     pre = [N1 >= 1, N2 >= 1, E1 >= 1, E2 >= 1]
     for m in (m1, m2):
         for dct in (m.blocks, m.nodeSets, m.sideSets):
-            for v in dct.values():
+            for v in (dct or {}).values():
                 pre.append(v.shape[0] >= 0)
     paths = P.explore(lambda: ns['combine_mesh']((m1, d1), (m2, d2)), pre)
     e, j, n, c = tm.var('e*', INT), tm.var('j*', INT), tm.var('n*', INT), tm.var('c*', INT)
@@ -401,6 +404,13 @@ def _combine_mesh(S):
         # the set dictionaries are those of combine_* with the node / element offsets of the first mesh
         for fld, f, offv in (('blocks', 'combine_blocks', E1), ('nodeSets', 'combine_nodesets', N1), ('sideSets', 'combine_sidesets', E1)):
             got = getattr(mesh, fld)
+            if getattr(m1, fld) is None and getattr(m2, fld) is None:
+                S.add(q + '/%s_stay_absent_when_neither_mesh_has_any@path%d' % (fld, pi), hy, tm.TRUE if got is None else tm.FALSE, kind='lia')
+                continue
+            if got is None:
+                # one of the meshes carries sets of this kind: dropping them loses members
+                S.add(q + '/%s_are_combined_with_the_offsets_of_the_first_mesh@path%d' % (fld, pi), hy, tm.FALSE, kind='lia')
+                continue
             exp_paths = P.explore(lambda: ns[f](getattr(m1, fld), getattr(m2, fld), offv), pre)
             ok = tm.FALSE
             for (c2, exp, st2) in exp_paths:
@@ -977,6 +987,9 @@ def run(S):
     _structured(S)
     _merge(S)
     _combine_mesh(S)
+    # a mesh without node sets / side sets (the default of the structured generator) merged with one that has them, either way round
+    for absent in ((('1', 'sideSets'),), (('2', 'sideSets'),), (('1', 'nodeSets'),), (('2', 'nodeSets'),), (('1', 'sideSets'), ('1', 'nodeSets'), ('2', 'sideSets'), ('2', 'nodeSets'))):
+        _combine_mesh(S, absent=absent)
     _elevation(S)
     _tri6(S)
     _exodus_blocks(S)
